@@ -108,6 +108,12 @@ Definition dim_mesh (m : mesh) : Z := compute_dimensionality (isnil (mC m)) (isn
 Definition dim_raw (r : raw) : Z := compute_dimensionality (isnil (rC r)) (isnil (rF r)) (isnil (rE r)).
 (* load(): class of the object built from the imported data (dim override absent) *)
 Definition class_of_raw (r : raw) : option string := instanciate_class (dim_raw r).
+(* load() prepares the data first: RawMeshData._prepare_edges drops the edges that are not valid, so an edge-only
+   file whose edges are all invalid loads as a point cloud *)
+Definition edge_valid (n : Z) (e : list Z) : bool :=
+  match e with [a; b] => prepare_edge_is_valid a b n | _ => false end.
+Definition class_of_loaded (r : raw) : option string :=
+  instanciate_class (compute_dimensionality (isnil (rC r)) (isnil (rF r)) (negb (existsb (edge_valid (zlen (rV r))) (rE r)))).
 
 (* edges designated by the keys of hard_edges: mesh.edges[e]; None = IndexError *)
 Definition hard_edge_list (m : mesh) (ks : list Z) : option (list (Z * Z)) := omap (fun k => py_nth (mE m) k) ks.
